@@ -232,11 +232,11 @@ const HEX64: &str = "f0e8bdb87c964420e857bd35b5d6ed310bd44f0170aba48dd91039c6036
 const SPECIAL: &[u8] = b" \t\n\r\x0c,;=/:%+AZaz09-_.~T\x7f\xc3";
 
 fn gen_cred(rng: &mut Rng) -> String {
-    let k = 5 + rng.below(5) as usize;
+    let k = if rng.chance(5, 6) { 5 } else { 5 + rng.below(5) as usize };
     let ak = if rng.chance(1, 16) { String::new() } else { gen_text(rng, &["A", "K", "I", "7", "x", "/", ",", " ", "é"][..k], 1, 20) };
-    let date = if rng.chance(3, 4) { rng.pick(&DATES8[..2]) } else { rng.pick(&DATES8) };
+    let date = if rng.chance(7, 8) { rng.pick(&DATES8[..2]) } else { rng.pick(&DATES8) };
     let region = if rng.chance(3, 4) { rng.pick(&REGIONS[..2]) } else { rng.pick(&REGIONS) };
-    let service = if rng.chance(3, 4) { rng.pick(&SERVICES[..2]) } else { rng.pick(&SERVICES) };
+    let service = if rng.chance(7, 8) { rng.pick(&SERVICES[..2]) } else { rng.pick(&SERVICES) };
     let tail = if rng.chance(1, 16) { rng.pick(&["aws4_reques", "aws4_request ", "aws4_request/", "AWS4_REQUEST", ""]) } else { "aws4_request" };
     format!("{ak}/{date}/{region}/{service}/{tail}")
 }
@@ -254,8 +254,8 @@ fn gen_signed_list(rng: &mut Rng) -> String {
 
 fn gen_auth(rng: &mut Rng) -> Vec<u8> {
     let alg = if rng.chance(1, 12) { rng.pick(&["AWS4-HMAC-SHA512", "AWS", "", "aws4-hmac-sha256", "AWS4-HMAC-SHA256\u{b}"]) } else { "AWS4-HMAC-SHA256" };
-    let sep1 = if rng.chance(4, 5) { " " } else { rng.pick(&WS) };
-    let sep2 = if rng.chance(3, 5) { " " } else { rng.pick(&WS) };
+    let sep1 = if rng.chance(7, 8) { " " } else { rng.pick(&WS) };
+    let sep2 = if rng.chance(3, 5) { " " } else { rng.pick(&WS[..6]) };
     let sep3 = if rng.chance(3, 5) { " " } else { rng.pick(&WS) };
     let tail = if rng.chance(4, 5) { "" } else { rng.pick(&WS) };
     let sig = if rng.chance(1, 10) { rng.pick(&["", "ABC", "zz zz", "f0e8"]).to_owned() } else { HEX64.to_owned() };
@@ -265,7 +265,7 @@ fn gen_auth(rng: &mut Rng) -> Vec<u8> {
         gen_signed_list(rng)
     );
     let mut v = t.into_bytes();
-    if rng.chance(1, 4) {
+    if rng.chance(1, 6) {
         let k = rng.range(1, 2);
         for _ in 0..k {
             v = mutate(rng, &v, SPECIAL);
@@ -419,16 +419,16 @@ fn gen_headers(rng: &mut Rng) -> (Vec<String>, Vec<Vec<u8>>) {
 fn gen_find(rng: &mut Rng, names: &[String]) -> Vec<String> {
     let mut f: Vec<String> = Vec::new();
     for n in names {
-        if rng.chance(2, 3) {
+        if rng.chance(2, 3) && (n != "authorization" || rng.chance(1, 8)) {
             f.push(n.to_ascii_lowercase());
         }
     }
-    if rng.chance(1, 3) {
+    if rng.chance(1, 8) {
         f.push(rng.pick(&["host", "x-absent", "range", ""]).to_owned());
     }
-    if rng.chance(3, 4) {
+    if rng.chance(7, 8) {
         f.sort();
-        if rng.chance(3, 4) {
+        if rng.chance(7, 8) {
             f.dedup();
         }
     }
